@@ -11,6 +11,11 @@ Theorem C14_table_total : forall r, feasible r = true -> exists m, read_outside 
 Proof. exact read_total. Qed.
 Print Assumptions C14_table_total.
 
+(* A datagram shorter than a header does nothing. *)
+Theorem C14_short : tab_short = 0.
+Proof. reflexivity. Qed.
+Print Assumptions C14_short.
+
 (* Every effect other than answering with a recv_error (delivery to the tun, closing a tunnel, roaming, liveness
    update, window update, lighthouse handler, relay control, forwarding, test reply, unwrapping a relayed payload)
    requires a packet of the right version whose index resolves to a tunnel, whose AEAD tag verifies under that
@@ -32,7 +37,9 @@ Proof.
 Qed.
 Print Assumptions C14_unauthenticated_inert.
 
-(* A tunnel is closed only by an authentic fresh CloseTunnel message - or by a recv_error in the F12 region. *)
+(* A tunnel is closed only by an authentic fresh CloseTunnel message - or by a recv_error in the F12 region.
+   (Handshake rows of the table describe a first handshake message of a node the receiver holds no tunnel for;
+   what handshake packets do to existing tunnels is the subject of C05-C10, not of this table.) *)
 Theorem C14_close : forall r m,
   read_outside r = Some m -> has e_close m = true ->
   (r_ty r = t_close_tunnel /\ authfresh r = true) \/ f12_region r = true.
